@@ -132,7 +132,7 @@ def check(tier, seed, replay=None):
     if replay:
         plans = [json.load(open(replay))["recipe"]]
     else:
-        r = tlc("MC_Run", "MC_Run.cfg", workers=8, timeout=1800, heap="6g")
+        r = tlc("MC_Run", "MC_Run.cfg" if tier == "quick" else "MC_Run_thorough.cfg", workers=8 if tier == "quick" else 14, timeout=3600, heap="6g" if tier == "quick" else "16g")
         tlc_ok(r, "MC_Run")
         if r.violated:
             raise ToolError("the specification itself violates %s (MC_Run)" % r.violated)
